@@ -798,24 +798,34 @@ def cause_group(h, cls):
     ingredients; everything else keeps its fine-grained class, so that a failure outside the families is not absorbed:
       second-root         more than one root revision
       revision-property   needs a revision property
+      directory-kind-change   some revision of the minimal history (the last one or one it builds on) changes a path
+                          or object between directory and non-directory
       rename-combined     a rename together with a change of ANOTHER object (added, deleted, moved, kind-changed) or
-                          with a kind change of the renamed object itself
-      directory-kind-change   no rename; a path or object changes between directory and non-directory
-      single-rename[...]  exactly one object renamed (children of a renamed directory follow), nothing else touched
+                          with a kind change of the renamed object itself, in some revision of the minimal history
+      single-rename[...]  the last revision renames exactly one object (children of a renamed directory follow) and
+                          touches nothing else
     """
-    extra = "".join("+" + x for x in ("plain", "rich-noprune", "one-character-name") if ("+" + x) in ("+" + cls))
+    extra = "".join("+" + x for x in ("plain", "one-character-name") if ("+" + x) in ("+" + cls))
     if "second-root" in cls:
         return "second-root"
     if "revision-property" in cls:
         return "revision-property"
-    n = len(h["P"])
-    if not h["P"][n - 1]:
-        return cls
-    base = {e["o"]: e for e in h["T"][h["P"][n - 1][0] - 1]}
-    cur = {e["o"]: e for e in h["T"][n - 1]}
+    groups = [_revision_group(h, r) for r in range(1, len(h["P"]) + 1)]
+    for g in ("directory-kind-change", "rename-combined"):
+        if g in groups:
+            return g + extra
+    if groups and groups[-1] and groups[-1].startswith("single-rename"):
+        return groups[-1] + extra
+    return cls
+
+
+def _revision_group(h, r):
+    if not h["P"][r - 1]:
+        return None
+    base = {e["o"]: e for e in h["T"][h["P"][r - 1][0] - 1]}
+    cur = {e["o"]: e for e in h["T"][r - 1]}
     moved = {o for o, e in cur.items() if o in base and base[o]["p"] != e["p"]}
-    # children that only follow a renamed directory
-    implied = set()
+    implied = set()                                            # children that only follow a renamed directory
     for o in moved:
         for d in moved:
             if d != o and cur[d]["k"] == "directory" and base[d]["k"] == "directory":
@@ -831,13 +841,12 @@ def cause_group(h, cls):
         b = bpaths.get(tuple(e["p"]))
         if b is not None and b["o"] != e["o"] and (b["k"] == "directory") != (e["k"] == "directory"):
             dirkind.add(e["o"])
+    if dirkind:
+        return "directory-kind-change"
     if renamed:
         if len(renamed) > 1 or others or (renamed & kind_changed):
-            return "rename-combined" + extra
+            return "rename-combined"
         o = next(iter(renamed))
         mod = "+modified" if (base[o]["c"], base[o]["x"]) != (cur[o]["c"], cur[o]["x"]) else ""
-        kids = "-with-children" if implied else ""
-        return "single-rename-of-%s%s%s%s" % (cur[o]["k"], kids, mod, extra)
-    if dirkind:
-        return "directory-kind-change" + extra
-    return cls
+        return "single-rename-of-%s%s%s" % (cur[o]["k"], "-with-children" if implied else "", mod)
+    return None
